@@ -82,6 +82,9 @@ type FuncSpec struct {
 	// type-only output, not "the" error; the body returns a nil *CErr.
 	// Mutually exclusive with HasErr and Built.
 	ConcreteErr bool `json:"concreteErr,omitempty"`
+	// FailFirst: the body fails (non-nil final error) on its FIRST execution
+	// only -- a transient failure. Needs HasErr.
+	FailFirst bool `json:"failFirst,omitempty"`
 }
 
 func (f *FuncSpec) String() string {
